@@ -93,7 +93,7 @@ def prop(pid, **kw):
 
 prop("C01",
      specgen=(40, 1500),
-     scripts=lambda tier, rnd: S.basic() + S.collision() + S.stop_points() + S.reaction_table() + S.gated() + S.fsm_points() + S.api_races() + S.two_sessions() + S.pm_busy() + S.pm_gates() +
+     scripts=lambda tier, rnd: S.basic() + S.collision() + S.stop_points() + S.reaction_table() + S.gated() + S.fsm_points() + S.api_races() + S.life_cycle() + S.two_sessions() + S.pm_busy() + S.pm_gates() +
      sample(S.pacing(), rnd, 200 if tier == "thorough" else 30) + S.collision_racy(rnd, 400 if tier == "thorough" else 10) +
      (S.damping() + S.writers() + S.registry(rnd, 120) if tier == "thorough" else sample(S.damping(), rnd, 10)),
      mc=lambda tier: [mc_pair(["openLo", "ka"])] if tier == "quick" else
@@ -131,7 +131,7 @@ prop("C09",
 
 prop("C10",
      specgen=(40, 1500),
-     scripts=lambda tier, rnd: S.stop_points() + [x for x in S.backpressure() if "stop" in x["tags"] or "end" in x["tags"]] + S.lis_fail() + [x for x in S.slow_callbacks() if "end" in x["tags"]] + S.gated() + S.fsm_points() + S.api_races() + S.pm_busy() + S.pm_gates() + S.close_race_connect(12 if tier == "thorough" else 4) + S.stop_dial_race(12 if tier == "thorough" else 3) +
+     scripts=lambda tier, rnd: S.stop_points() + [x for x in S.backpressure() if "stop" in x["tags"] or "end" in x["tags"]] + S.lis_fail() + S.life_cycle() + [x for x in S.slow_callbacks() if "end" in x["tags"]] + S.gated() + S.fsm_points() + S.api_races() + S.pm_busy() + S.pm_gates() + S.close_race_connect(12 if tier == "thorough" else 4) + S.stop_dial_race(12 if tier == "thorough" else 3) +
      S.stop_everywhere(rnd, 1200 if tier == "thorough" else 60),
      mc=lambda tier: [mc_pair(["openLo", "ka"])] if tier == "quick" else
      [mc_pair(["openLo", "ka", "upd"], dials=2), mc_pair(["openHi", "ka", "notif"], dials=2),
@@ -209,8 +209,9 @@ prop("C08",
 
 prop("C02",
      pure=["openval"],
-     scripts=lambda tier, rnd: S.open_cases(rnd, limit_per_cfg=45, random_bodies=4) if tier == "quick" else
-     S.open_cases(rnd, random_bodies=200),
+     scripts=lambda tier, rnd: S.open_gated(rnd) + (S.open_cases(rnd, limit_per_cfg=45, random_bodies=4) if tier == "quick" else
+                                                    S.open_cases(rnd, random_bodies=200)),
+     end_oracles={"intact"},
      mc=lambda tier: [mc_pair(["openLo", "openBad", "ka"], conns=1, msgs=3)],
      nontrivial=lambda s, r: True,
      rule="OPEN bodies from the field/TLV/perturbation builder (+ random bodies) x 5 AS/identifier configurations x direction, "
@@ -234,7 +235,7 @@ prop("C13",
 
 prop("C20",
      pure=["registry"],
-     scripts=lambda tier, rnd: S.registry(rnd, 60 if tier == "quick" else 2000) + S.api_races() + S.dial_params() +
+     scripts=lambda tier, rnd: S.registry(rnd, 60 if tier == "quick" else 2000) + S.api_races() + S.life_cycle() + S.dial_params() +
      [x for x in S.multi_listener() if "dual" in x["id"]],
      mc=lambda tier: [mc_api(4)] if tier == "quick" else
      [mc_api(4), mc_api(5, ops=("addPeer", "deletePeer", "serve", "close"))],
@@ -245,7 +246,7 @@ prop("C20",
 prop("C05",
      pure=["big", "deframe", "prefix"],
      specgen=(30, 300),
-     scripts=lambda tier, rnd: S.pm_busy() + S.pm_gates() + S.api_races() + S.lis_fail() + S.close_race_connect(12 if tier == "thorough" else 4) +
+     scripts=lambda tier, rnd: S.pm_busy() + S.pm_gates() + S.api_races() + S.lis_fail() + S.life_cycle() + S.close_race_connect(12 if tier == "thorough" else 4) +
      sample(S.pacing(), rnd, 120 if tier == "thorough" else 25) +
      sample(S.two_sessions(), rnd, 21 if tier == "thorough" else 6) + S.stop_dial_race(2) +
      S.stop_everywhere(rnd, 600 if tier == "thorough" else 20) + S.fuzz(rnd, 1200 if tier == "thorough" else 40) + S.message_grid(rnd, 800 if tier == "thorough" else 40) +
